@@ -72,6 +72,9 @@ func (p *Prog) constLeaves(v ssa.Value, depth int, seen map[ssa.Value]bool) (val
 			return nil, false
 		}
 		for _, cs := range sites {
+			if p.skipSite != nil && p.skipSite(cs) {
+				continue
+			}
 			if idx >= len(cs.Common().Args) {
 				return nil, false
 			}
@@ -156,7 +159,13 @@ func valueFidelity(c *Ctx, p *Prog, m *Model, mr *ModeReach, rule string) {
 					continue // the record's own timestamp: layout chosen by the logger (C16)
 				}
 				n++
+				// call chains that come from the record's own timestamp printer carry the logger's layout (C16), not a value's
+				p.skipSite = func(cs ssa.CallInstruction) bool { return nm(cs.Parent()) == "appendTimestamp" }
 				lv, ok := p.constLeaves(args[len(args)-1], 0, map[ssa.Value]bool{})
+				p.skipSite = nil
+				if ok && len(lv) == 0 {
+					continue // only reached from the timestamp printer
+				}
 				var probs []string
 				if !ok {
 					probs = append(probs, "the layout of a time VALUE is not a constant")
